@@ -22,7 +22,12 @@ def module_constants(modname):
             try:
                 out[node.targets[0].id] = ast.literal_eval(node.value)
             except Exception:
-                pass
+                v = node.value
+                if isinstance(v, ast.Call) and isinstance(v.func, ast.Name) and v.func.id == "dict" and not v.args:
+                    try:
+                        out[node.targets[0].id] = dict((k.arg, ast.literal_eval(k.value)) for k in v.keywords)
+                    except Exception:
+                        pass
     _cache[modname] = out
     return out
 
@@ -51,3 +56,25 @@ def isotope_list():
 
 def data_file(*parts):
     return os.path.join(PKG, *parts)
+
+
+# ---- notation lexing (no interpretation: see spec/PTReaders.tla) ---------------------
+def lex_unc(field):
+    from . import dec
+    f = field.strip()
+    if f == "":
+        return {"k": "empty"}
+    if f == "-":
+        return {"k": "dash"}
+    if f.startswith("["):
+        inner = f[1:f.index("]")]
+        parts = inner.split(",")
+        if len(parts) == 2:
+            return {"k": "range", "lo": dec.to_dec(parts[0].strip()), "hi": dec.to_dec(parts[1].strip())}
+        return {"k": "nominal", "v": dec.to_dec(parts[0].strip())}
+    if "(" in f:
+        value = f[:f.index("(")]
+        unc = f[f.index("(") + 1:f.index(")")]
+        return {"k": "unc", "v": dec.to_dec(value), "ud": dec.to_dec(unc),
+                "vdec": len(value.split(".")[1]) if "." in value else 0, "udot": "." in unc, "vdot": "." in value}
+    return {"k": "plain", "v": dec.to_dec(f.rstrip("#"))}
